@@ -33,7 +33,7 @@ INVS = ["TypeOK", "Solvable", "RatOK",
         "MZeroOnSinks", "MFPTFirstStep", "LagLinear",
         "PiStationary", "FundamentalIsInverse", "AllPairsColumn", "AllPairsFirstStep"]
 ALL_MODES = ("committor", "mfpt_sinks", "mfpt_all")
-LAGS = ((1, 1), (5, 2))          # 5/2: a non-integer lag time, exact in binary
+LAGS = ((1, 1), (5, 2), (1, 4))  # 5/2: a non-integer lag time, 1/4: a lag time below one; both exact in binary
 SMALL_HEAP = ("-Xmx1200m",)        # the single-worker part jobs hold < 1e6 states; 16 of them run at once
 
 # parts: the chains of a scope are split over `parts` single-worker TLC processes (checking and
@@ -63,9 +63,14 @@ if os.environ.get("VERIF_SMOKE"):      # a sub-scope of quick, for trying mutant
 # ------------------------------------------------------------------ replay (A)
 
 def _containers(T):
+    """the same matrix as a C-ordered ndarray, three sparse-matrix formats, a Fortran-ordered ndarray and a
+    non-contiguous view into a larger buffer (every second row and column of a junk-filled array)"""
     import scipy.sparse as sp
+    n = T.shape[0]
+    big = np.full((2 * n + 1, 2 * n + 1), 0.123456789)
+    big[1::2, 1::2] = T
     return [("dense", T.copy()), ("csr", sp.csr_matrix(T)), ("lil", sp.lil_matrix(T)),
-            ("csc", sp.csc_matrix(T))]
+            ("csc", sp.csc_matrix(T)), ("dense-F", np.asfortranarray(T)), ("dense-view", big[1::2, 1::2])]
 
 
 def snapshot(x):
@@ -80,7 +85,8 @@ def snapshot(x):
             return (x.format, x.shape, x.data.tobytes(), x.row.tobytes(), x.col.tobytes())
         return (x.format, x.shape, x.toarray().tobytes())
     if isinstance(x, np.ndarray):
-        return (x.shape, x.dtype.str, x.tobytes())
+        base = x.base.tobytes() if isinstance(x.base, np.ndarray) else b""     # a view: the buffer around it too
+        return (x.shape, x.dtype.str, x.strides, x.tobytes(), base)
     return repr(x)
 
 
@@ -167,15 +173,16 @@ def replay_case(c):
     return bad
 
 
-ALL_CONTAINERS = ("dense", "csr", "lil", "csc")
+ALL_CONTAINERS = ("dense", "csr", "lil", "csc", "dense-F", "dense-view")
 
 
 def choose_containers(cases, tier):
-    """quick tier: committor cases use the dense container and ONE sparse container in rotation
-    (a sparse committors call costs ~1 ms); everything else, and the thorough tier, uses all four."""
+    """quick tier: committor cases use the C-ordered dense container, ONE sparse container and ONE other dense
+    memory layout in rotation (a sparse committors call costs ~1 ms); everything else, and the thorough tier, uses
+    all six."""
     for k, c in enumerate(cases):
         if tier == "quick" and c.get("mode", "flux") in ("committor", "flux"):
-            c["containers"] = ["dense", ALL_CONTAINERS[1 + k % 3]]
+            c["containers"] = ["dense", ALL_CONTAINERS[1 + k % 3], ALL_CONTAINERS[4 + (k // 3) % 2]]
         else:
             c["containers"] = list(ALL_CONTAINERS)
 
@@ -377,7 +384,7 @@ def record_trace(job):
 
 def _trace_jobs(rng, count):
     jobs = []
-    lags = [(1, 1), (5, 2), (7, 3), (10, 1)]
+    lags = [(1, 1), (5, 2), (1, 2), (7, 3), (10, 1), (3, 8)]
     for p in PINNED_SUITE:
         jobs.append(dict(A=p["A"], committors=[(pr, cn) for pr in p["pairs"] for cn in CONT_TAG],
                          sinks=[(s, l) for s in p["sinks"] for l in lags[:3]], allpairs=[(1, 1), (5, 1)]))
